@@ -301,9 +301,16 @@ def _pair_class(kind, a, b):
 def verb_case(case):
     rng = random.Random(case["seed"])
     commas = bool(case.get("commas"))
-    flags, fields, recs = gen_sort_case(rng, case.get("nmax", 60), case.get("flags"), commas)
-    use_b = rng.random() < 0.10
-    argv = sort_argv(rng, flags, fields, use_b)
+    if case.get("explicit"):
+        # hand-written regression inputs (kept from defects found by the random cases)
+        flags, fields = case["explicit"]["flags"], case["explicit"]["fields"]
+        recs = [[("id", f"r{j+1}")] + [tuple(kv) for kv in r] for j, r in enumerate(case["explicit"]["recs"])]
+        use_b = False
+        argv = ["sort"] + [a for fl, f in zip(flags, fields) for a in (fl, f)]
+    else:
+        flags, fields, recs = gen_sort_case(rng, case.get("nmax", 60), case.get("flags"), commas)
+        use_b = rng.random() < 0.10
+        argv = sort_argv(rng, flags, fields, use_b)
     if case.get("b"):
         argv = ["--records-per-batch", str(case["b"])] + argv
     sep = ";" if commas else ","
@@ -1207,6 +1214,23 @@ def run(chk):
         nv = 600 if q else 5000
         cases = [{"seed": f"{chk.seed}/{chk.tier}/verb/{i}", "nmax": 60 if (q or i % 5) else 400,
                   "b": [0, 0, 1, 500][i % 4], "commas": i % 8 == 7} for i in range(nv)]
+        explicit = [
+            # natural key with numerically equal spellings + a second key (C09-F6)
+            {"flags": ["-t", "-f"], "fields": ["k1", "k2"],
+             "recs": [[("k1", "y01"), ("k2", "e")], [("k1", "y1"), ("k2", "h")], [("k1", "y1"), ("k2", "a")], [("k1", "y01"), ("k2", "d")]]},
+            {"flags": ["-tr", "-nr"], "fields": ["k1", "k2"],
+             "recs": [[("k1", "x2"), ("k2", "1")], [("k1", "x02"), ("k2", "5")], [("k1", "x02"), ("k2", "3")], [("k1", "x2"), ("k2", "4")],
+                      [("k1", "x2"), ("k2", "2")]]},
+            # case-folded sort of number spellings with letters (C09-F7)
+            {"flags": ["-c"], "fields": ["k1"], "recs": [[("k1", "0xff")], [("k1", "0xFE")], [("k1", "0xfd")], [("k1", "1E3")], [("k1", "1e1")]]},
+            {"flags": ["-cr", "-f"], "fields": ["k1", "k2"],
+             "recs": [[("k1", "1e3"), ("k2", "b")], [("k1", "1E3"), ("k2", "a")], [("k1", "1e3"), ("k2", "c")], [("k1", "0xFE"), ("k2", "a")],
+                      [("k1", "0xff"), ("k2", "a")]]},
+            # natural sort with empty values
+            {"flags": ["-t"], "fields": ["k1"], "recs": [[("k1", "b")], [("k1", "")], [("k1", "a")], [("k1", "a10")], [("k1", "a9")]]},
+        ]
+        for xi, ex in enumerate(explicit):
+            cases.append({"seed": f"explicit/{xi}", "explicit": ex, "b": 0})
         if not q:
             rng = chk.rng("flagcombos")
             combos = [[a] for a in FLAG_KINDS] + [[a, b] for a in FLAG_KINDS for b in FLAG_KINDS]
